@@ -41,7 +41,7 @@ def real_member(rng, d):
 
 
 def run(tier, seed):
-    ctx = core.Ctx(PROP, tier, seed, "translation_validation", ["C03"])
+    ctx = core.Ctx(PROP, tier, seed, "translation_validation", ["C03", "C01", "C02"])
     ctx.axioms = core.audit(ctx.modules)
     import pyqsp.angle_sequence as A
     import pyqsp.completion as C
